@@ -110,6 +110,50 @@ def run(out: Outcome) -> None:
         if math.isnan(got) or abs(got - ref) > (1e-5 if dt is np.float32 else 1e-9):
             out.violation(f"MMD on {np.dtype(dt).name} arrays returns {got!r}, the unbiased estimator of these values is {ref!r}", rep)
         out.case({"dtype": np.dtype(dt).name, "n": n, "m": m, "dim": dim, "h": hash(Xi.tobytes() + Yi.tobytes()) & 0xFFFFFF})
+    # memory LAYOUT: the same values as a Fortran-ordered matrix (what `df[["a", "b"]].to_numpy()` gives), a column slice of a wider matrix, a transpose, a strided
+    # view (every other row), a read-only array - the estimator depends on the values only
+    for layout in ("fortran", "column slice", "transpose", "strided rows", "read-only", "negative stride"):
+        n, m, dim = rng.randint(3, 8), rng.randint(3, 8), rng.choice([2, 3])
+        sigma = rng.choice([1.0, 2.5])
+        Xc, Yc = sample(rng, n, dim), sample(rng, m, dim)
+
+        def lay(A):
+            if layout == "fortran":
+                return np.asfortranarray(A)
+            if layout == "column slice":
+                wide = np.concatenate([A, np.full((A.shape[0], 2), 7.0)], axis=1)
+                return wide[:, : A.shape[1]]
+            if layout == "transpose":
+                return np.ascontiguousarray(A.T).T
+            if layout == "strided rows":
+                big = np.repeat(A, 2, axis=0)
+                return big[::2]
+            if layout == "negative stride":
+                return A[::-1][::-1][:, ::-1][:, ::-1] if False else np.ascontiguousarray(A[::-1])[::-1]
+            B = A.copy()
+            B.setflags(write=False)
+            return B
+        Xl, Yl = lay(Xc), lay(Yc)
+        rep = {"n": n, "m": m, "dim": dim, "sigma": sigma, "layout": layout, "X": Xc.tolist(), "Y": Yc.tolist()}
+        if not (np.array_equal(Xl, Xc) and np.array_equal(Yl, Yc)):
+            raise AssertionError("layout helper changed the values")
+        want = unbiased(Xc, Yc, sigma)
+        try:
+            det = MMD(kernel=partial(rbf_kernel, sigma=sigma), chunk_size=rng.choice([None, 2]))
+            det.fit(X=Xl)
+            got = float(det.compare(X=Yl)[0].distance)
+            if math.isnan(got) or abs(got - want) > 1e-9:
+                out.violation(f"MMD on {layout} arrays returns {got!r}, the unbiased estimator of these values is {want!r}", rep)
+            sdet = MMDStreaming(window_size=m, kernel=partial(rbf_kernel, sigma=sigma))
+            sdet.fit(X=Xl)
+            last = None
+            for row in Yl:
+                last, _ = sdet.update(value=row)
+            if last is None or abs(float(last.distance) - want) > 1e-9:
+                out.violation(f"streaming MMD fitted on a {layout} reference and fed rows of a {layout} matrix returns {None if last is None else float(last.distance)!r}, the batch value is {want!r}", rep)
+        except Exception as e:  # noqa: BLE001
+            out.violation(f"MMD on {layout} arrays raised {type(e).__name__}: {e}", rep)
+        out.case({"layout": layout, "n": n, "m": m, "dim": dim})
     # streaming
     for _ in range(30 if thorough else 10):
         w, dim = rng.randint(2, 6), rng.choice([1, 2])
